@@ -388,12 +388,44 @@ def _fetch_model(ob, text, budget, getval):
     ob.model = model
 
 
-def discharge_all(obligations, budget=10, workers=None):
+def discharge_all(obligations, budget=10, workers=None, deadline_s=None):
+    """deadline_s: overall wall-clock budget; obligations not started by then stay undecided (a
+    verdict needs only one refutation, and a broken tree must not make the check run for ever)."""
     workers = workers or min(16, os.cpu_count() or 4)
     t0 = time.time()
-    prepared = [prepare(ob) for ob in obligations]
+
+    def guarded(ob, prep):
+        if deadline_s is not None and time.time() - t0 > deadline_s and prep is not None:
+            ob.status, ob.backend = 'undecided', 'deadline'
+            return ob
+        return discharge_one(ob, budget, prep)
+    proofs = [ob for ob in obligations if ob.expect == 'unsat']
+    covers = [ob for ob in obligations if ob.expect != 'unsat']
+    prepared = [prepare(ob) for ob in proofs]
+    # cover points (vacuity guards) only need ONE satisfiable path each: try the smallest first
+    groups = {}
+    for ob in covers:
+        groups.setdefault(ob.oid, []).append(ob)
+
+    def do_cover(group):
+        group.sort(key=lambda o: len(o.assumptions))
+        for ob in group[:12]:
+            discharge_one(ob, min(budget, 5), cover_prepared[id(ob)])
+            if ob.status == 'covered':
+                break
+        for ob in group:
+            if ob.status is None:
+                ob.status, ob.backend = 'skipped', None
+    cover_prepared = {}
+    for g in groups.values():
+        g.sort(key=lambda o: len(o.assumptions))
+        for ob in g[:12]:
+            cover_prepared[id(ob)] = prepare(ob)
     with ThreadPoolExecutor(max_workers=workers) as pool:
-        list(pool.map(lambda p: discharge_one(p[0], budget, p[1]), zip(obligations, prepared)))
+        futs = [pool.submit(do_cover, g) for g in groups.values()]
+        list(pool.map(lambda p: guarded(p[0], p[1]), zip(proofs, prepared)))
+        for f in futs:
+            f.result()
     return time.time() - t0
 
 
